@@ -49,15 +49,15 @@ var Prop = &engine.Prop{
 		"mock mode: the code of a phone shorter than CodeLen is the phone left-padded with '0' (the only padding that keeps 'the last CodeLen digits' of the number)",
 		"alphabets of the nonce generator are non-empty strings of single-byte characters; whole-alphabet coverage is judged over >= 1200*len(alphabet) drawn characters (miss probability < 1e-500 for a uniform draw)",
 	},
-	ShardsQuick: 4, ShardsThorough: 16,
+	ShardsQuick: 4, ShardsThorough: 48,
 	Kinds: []engine.Kind{
-		{Name: "history", Quick: 40000, Thorough: 1600000, Fn: historyCase},
-		{Name: "attempts", Quick: 10000, Thorough: 400000, Fn: attemptsCase},
-		{Name: "sendlimit", Quick: 10000, Thorough: 400000, Fn: sendlimitCase},
-		{Name: "otherphone", Quick: 10000, Thorough: 400000, Fn: otherphoneCase},
-		{Name: "lifetime", Quick: 5000, Thorough: 200000, Fn: lifetimeCase},
-		{Name: "codes", Quick: 24, Thorough: 960, Fn: codesCase},
-		{Name: "nonce", Quick: 300, Thorough: 12000, Fn: nonceCase},
+		{Name: "history", Quick: 40000, Thorough: 4800000, Fn: historyCase},
+		{Name: "attempts", Quick: 10000, Thorough: 1200000, Fn: attemptsCase},
+		{Name: "sendlimit", Quick: 10000, Thorough: 1200000, Fn: sendlimitCase},
+		{Name: "otherphone", Quick: 10000, Thorough: 1200000, Fn: otherphoneCase},
+		{Name: "lifetime", Quick: 5000, Thorough: 600000, Fn: lifetimeCase},
+		{Name: "codes", Quick: 24, Thorough: 2880, Fn: codesCase},
+		{Name: "nonce", Quick: 300, Thorough: 36000, Fn: nonceCase},
 	},
 	Floors: map[string]int64{
 		"verify_right_accepted":              500,
